@@ -372,9 +372,16 @@ def aAfterType (ctx : ACtx R) (c : ConsumerReq) (found : Option ConsRow) (t : Op
                                                   user := reqUser ctx.cfg c, ctype := t })] }
   | none => .txn .createConsumer (aCreateConsumer ctx c t k)
 
+/-- the insert lost a race (`ConsumerTypeExists`, another request created the type after this one looked): "try
+again" - the type cache is refreshed in a transaction of its own and now has the name (types are never removed) -/
+def aRereadCtype (ctx : ACtx R) (c : ConsumerReq) (found : Option ConsRow) (t : Nat)
+    (k : ACtx R → P R) (db : DB R) : DB R × P R :=
+  (db, aAfterType { ctx with ctCache := some db.ctypes } c found (some t) k)
+
 def aCreateCtype (ctx : ACtx R) (c : ConsumerReq) (found : Option ConsRow) (t : Nat)
     (k : ACtx R → P R) (db : DB R) : DB R × P R :=
-  ({ db with ctypes := addIfMissing db.ctypes t }, aAfterType { ctx with ctCache := none } c found (some t) k)
+  if db.ctypes.contains t then (db, .txn .getCtype (aRereadCtype ctx c found t k))
+  else ({ db with ctypes := addIfMissing db.ctypes t }, aAfterType { ctx with ctCache := none } c found (some t) k)
 
 def aGetCtype (ctx : ACtx R) (c : ConsumerReq) (found : Option ConsRow) (t : Nat)
     (k : ACtx R → P R) (db : DB R) : DB R × P R :=
@@ -404,15 +411,20 @@ def aGetConsumer (ctx : ACtx R) (c : ConsumerReq) (k : ACtx R → P R) (db : DB 
     if ctx.mv ≥ 28 && c.gen.isSome then (db, cleanupThen ctx.created (r409 .concurrentUpdate))
     else (db, aType ctx c none k)
 
+/-- the insert lost a race (`UserExists` / `ProjectExists`): the record is read again, in a transaction of its own -/
+def aAgain (next : P R) (db : DB R) : DB R × P R := (db, next)
+
 def aCreateUser (ctx : ACtx R) (c : ConsumerReq) (k : ACtx R → P R) (db : DB R) : DB R × P R :=
-  ({ db with users := addIfMissing db.users (reqUser ctx.cfg c) }, .txn .getConsumer (aGetConsumer ctx c k))
+  if db.users.contains (reqUser ctx.cfg c) then (db, .txn .getUser (aAgain (.txn .getConsumer (aGetConsumer ctx c k))))
+  else ({ db with users := addIfMissing db.users (reqUser ctx.cfg c) }, .txn .getConsumer (aGetConsumer ctx c k))
 
 def aGetUser (ctx : ACtx R) (c : ConsumerReq) (k : ACtx R → P R) (db : DB R) : DB R × P R :=
   if db.users.contains (reqUser ctx.cfg c) then (db, .txn .getConsumer (aGetConsumer ctx c k))
   else (db, .txn .createUser (aCreateUser ctx c k))
 
 def aCreateProject (ctx : ACtx R) (c : ConsumerReq) (k : ACtx R → P R) (db : DB R) : DB R × P R :=
-  ({ db with projects := addIfMissing db.projects (reqProject ctx.cfg c) }, .txn .getUser (aGetUser ctx c k))
+  if db.projects.contains (reqProject ctx.cfg c) then (db, .txn .getProject (aAgain (.txn .getUser (aGetUser ctx c k))))
+  else ({ db with projects := addIfMissing db.projects (reqProject ctx.cfg c) }, .txn .getUser (aGetUser ctx c k))
 
 def aGetProject (ctx : ACtx R) (c : ConsumerReq) (k : ACtx R → P R) (db : DB R) : DB R × P R :=
   if db.projects.contains (reqProject ctx.cfg c) then (db, .txn .getUser (aGetUser ctx c k))
